@@ -8,6 +8,7 @@ open Goat
 
 theorem flag_enqueueNonBlocking : Generated.cfg.enqueueNonBlocking = true := by decide
 theorem flag_badSourceIsIgnored : Generated.cfg.badSourceIsIgnored = true := by decide
+theorem flag_emptyNextIsNoRoute : Generated.cfg.emptyNextIsNoRoute = true := by decide
 theorem sk_proxy_Proxy_AddClient : Generated.sk_proxy_Proxy_AddClient = Expected.sk_proxy_Proxy_AddClient := by decide
 theorem sk_proxy_Proxy_addOutgoingConnectionLocked : Generated.sk_proxy_Proxy_addOutgoingConnectionLocked = Expected.sk_proxy_Proxy_addOutgoingConnectionLocked := by decide
 theorem sk_proxy_Proxy_serveClients : Generated.sk_proxy_Proxy_serveClients = Expected.sk_proxy_Proxy_serveClients := by decide
